@@ -263,8 +263,8 @@ EXPECT_ARG = {
     ("At5Zone", "set_power", "zone_power"): "_API_ZONE_POWER_MAPPING[power_control]",
     ("At4Zone", "set_target_temperature", "control_method"): "group_ctrl_msg.GroupControlMethod.TEMPERATURE",
     ("At4Zone", "set_damper_percentage", "control_method"): "group_ctrl_msg.GroupControlMethod.DAMPER",
-    ("At4Zone", "set_damper_percentage", "setting"): "group_ctrl_msg.GroupDamperControl(open_percentage)",
-    ("At5Zone", "set_damper_percentage", "zone_setting"): "zone_ctrl_msg.ZoneDamperControl(open_percentage)",
+    ("At4Zone", "set_damper_percentage", "setting"): "group_ctrl_msg.GroupDamperControl(open_percentage=open_percentage)",
+    ("At5Zone", "set_damper_percentage", "zone_setting"): "zone_ctrl_msg.ZoneDamperControl(open_percentage=open_percentage)",
     ("At4AirConditioner", "set_power", "power"): "_API_POWER_CONTROL_MAPPING[power_control]",
     ("At5AirConditioner", "set_power", "power"): "_API_POWER_CONTROL_MAPPING[power_control]",
     ("At4AirConditioner", "set_mode", "mode"): "_API_MODE_CONTROL_MAPPING[mode]",
